@@ -957,8 +957,7 @@ STALE_CLASS = ("a directory that was moved out of the tree keeps its watch and m
 
 
 def _touches_stale_name(path, hist):
-    """Does the directory's provenance chain pass through a name that a directory held when it was moved out, with
-    a drain between that move-out and the re-use (so that only the stale watch - not a race - explains it)?"""
+    """Does the directory's provenance chain pass through a name that a directory held when it was moved out earlier?"""
     ops = [op for op, _ in hist]
     paces = [p for _, p in hist]
     p = path
@@ -982,9 +981,8 @@ def _touches_stale_name(path, hist):
         out = op[1]
         if not any(n == out or inside(n, out) or inside(out, n) for n in names):
             continue
-        for j in chain_idx:
-            if j > i and any(pc in ("drain", "drain-soft") for pc in paces[i:j]):
-                return True
+        if any(j > i for j in chain_idx):
+            return True
     return False
 
 
@@ -1715,6 +1713,10 @@ def continue_from_suspicious(ctx, checks, seeds, cfg, *, depth, cap, respect_pac
                     v = dict(v)
                     if not v.get("infra"):
                         v["fp"] = classify(v, t, hist, cfg)
+                        if not respect_pacing:
+                            # the seed state already has mislabelled watches: whatever fails afterwards follows from that
+                            v["fp"] = (v["fp"].split(":")[0] + ": follow-up of an inconsistent watch map (names were re-used "
+                                       "before their notifications were processed)")
                     v.update(prefix=list(prefix), harness=r["name"], tree0=t, history=[[list(op), p] for op, p in hist], cfg=cfg.tag())
                     ctx.add_violation(v)
                 if not bad and r["key"] is not None and r["key"] not in seen:
